@@ -27,4 +27,8 @@ theorem AsmTables_encode (t : InstType) (opc : Nat) (ops : List Operand) : encod
   unfold encodeSrc Asm.encode
   split <;> simp [AsmTables_insn, shl32sar32_eq]
 
+/-- the loops around the tables (`assemble_internal`, `operands_tuple`, the head of `encode`, `assemble`) have the shape the model's `assembleInternal` / `assemble` mirror
+    (recognised as a whole by the translator: any other text makes a flag false) -/
+theorem AsmTables_shape : assembleLoopShape = true ∧ operandsTupleShape = true ∧ encodeHeadShape = true ∧ assembleTopShape = true := by decide
+
 end Rbpf
